@@ -12,7 +12,7 @@ if os.path.exists(p):
 lines = []
 lines.append('### 9.1 Independently written changes (sub-agents saw only the property text and a scratch worktree)')
 lines.append('')
-lines.append('Each was confirmed here: the existing 94 tests pass with the change, the author\'s demonstration fails with it and passes without it, then the patch was applied to /repo, every check was run, and /repo was restored. Kept under `seeded/<id>/` (patch.diff, demo.rs, meta.json).')
+lines.append('Each was confirmed here: the existing 94 tests pass with the change, the author\'s demonstration fails with it and passes without it, then the patch was applied to /repo, every check was run, and /repo was restored (from round 5 on: applied to a scratch copy of /repo that the checks analyse through `--repo`, `selftest/par_run.py`). Kept under `seeded/<id>/` (patch.diff, demo.rs, meta.json).')
 lines.append('')
 lines.append('| seed | breaks | change (author\'s words, abridged) | needs to manifest | caught by | first finding |')
 lines.append('|---|---|---|---|---|---|')
@@ -24,7 +24,7 @@ for d in sorted(glob.glob(os.path.join(V, 'seeded', '*'))):
     det = ', '.join(m.get('detected_by', []))
     ff = ''
     for pp in m.get('detected_by', []):
-        f = m['checks'][pp]['findings']
+        f = m.get('checks', {}).get(pp, {}).get('findings', [])
         if f and pp == m['breaks_property']:
             ff = f[0].split('  ')[0].replace('FINDING ', '')
             break
